@@ -114,6 +114,10 @@ def run_pipeline(case, data, tmpdir, script_override=None, decisions=None, strat
         if case.get("short_reads"):
             src0 = ShortReadSource(data, case["rate"], case["width"], case["channels"]).vf_init(case["short_reads"])
             reader = H.SchedReader(src0, block_dur=case["w"]).vf_init(sched)
+        elif case.get("close_fault"):
+            src0 = H.FaultyCloseSource(data, case["rate"], case["width"], case["channels"])
+            reader = H.SchedReader(src0, block_dur=case["w"]).vf_init(sched)
+            src0.vf_reader = reader
         else:
             reader = H.SchedReader(data, block_dur=case["w"], **AC.audio_kwargs(case)).vf_init(sched)
         holder["reader"] = reader
@@ -166,18 +170,23 @@ def run_pipeline(case, data, tmpdir, script_override=None, decisions=None, strat
             logger.setLevel(logging.INFO)
         if case.get("fault_at_read") is not None:
             reader.vf_fault_at = case["fault_at_read"]
-        if case.get("close_fault"):
-            H._faulty_close(reader)
         tw = W.TokenizerWorker(src, observers, logger=logger, **kw)
         tw.vf_name = "tokenizer"
         holder["tw"] = tw
 
-        def on_put(q, item):
-            if item == STOP and q is tw._inbox and "reads_started_at_stop" not in holder and sched.me().name == "main":
+        def stop_takes_effect(*_):
+            # "The moment of the stop" = the first thing the main thread does to the workers after stop_all() was entered
+            # that another thread could notice: a message put into an inbox, an event set, or - at the latest - the join
+            # it blocks in.  On the pinned tree this is the enqueue of the stop message into the tokenizer's inbox; the rule
+            # does not depend on HOW the implementation tells its threads to stop (message, flag, sentinel object).
+            if holder.get("stop_called") and "reads_started_at_stop" not in holder and sched.me().name == "main":
                 holder["reads_started_at_stop"] = reader.vf_reads_started
                 holder["step_at_stop"] = sched.steps
 
-        sched.on_put = on_put
+        sched.on_put = stop_takes_effect
+        sched.on_signal = stop_takes_effect
+        sched.on_join = stop_takes_effect
+        holder["stop_takes_effect"] = stop_takes_effect
         if case.get("start_order") == "tokenizer-first":
             # started by hand, tokenizer before its observers (start_all() does it the other way round)
             tw.start()
@@ -194,6 +203,7 @@ def run_pipeline(case, data, tmpdir, script_override=None, decisions=None, strat
                 sched.yield_point("main-delay")
             holder["stop_called"] = True
             tw.stop_all()
+            stop_takes_effect()  # nothing observable was done (every thread had already ended): the stop is its own return
             if saver is not None:
                 saver.join()  # as the command line does
 
